@@ -4,7 +4,7 @@
    NOT covered here (explored on the implementation only, see props/c18.py): the text round trip
    parse . display, the JSON round trip of VersionedProgram, CASM equality of round-tripped
    programs and of id-replaced programs. *)
-From C18 Require Import Compress Serde CompressProofs SerdeProofs Corr.
+From C18 Require Import Compress Serde CompressProofs SerdeProofs SizeProofs Corr.
 Local Open Scope N_scope.
 
 (* decompress inverts compress on every vector of big unsigned integers (felts or not).  The only
@@ -54,18 +54,20 @@ Theorem C18_sierra_to_felts : forall (keccak : bytes -> N) (long_ids : list byte
   sierra_to keccak long_ids sv cv p = Some fs -> Forall (fun v => v < PN) fs.
 Proof. exact sierra_to_felts. Qed.
 
-(* C14 kernel: the deserializer is a total function (a Gallina term), every allocation it makes
-   through vec_with_bounded_capacity is at most the number of felts still unread, which is at most
-   the length of the input, and it never returns more input than it got *)
+(* C14 kernel: the deserializer is a total function (de_program is a Gallina term: it terminates
+   on every felt vector, by structural recursion on element counts it has already checked against
+   the unread input); every allocation it makes through vec_with_bounded_capacity is at most the
+   number of felts still unread, which is at most the length of the input; and whatever it
+   accepts, it has read exactly one felt per scalar of the program it built (sz_program,
+   C18/SizeProofs.v), so the result is never larger than the input *)
 Theorem C14_de_total_bounded : forall (keccak : bytes -> N) (long_ids : list bytes) (l : list N),
-  (exists r, de_program keccak long_ids l = r)
-  /\ Forall (fun '(size, remaining) => size <= remaining /\ remaining <= lenN l)
-            (alloc_requests keccak long_ids l)
+  Forall (fun '(size, remaining) => size <= remaining /\ remaining <= lenN l)
+         (alloc_requests keccak long_ids l)
   /\ match de_program keccak long_ids l with
-     | Some (_, rest) => lenN rest <= lenN l
+     | Some (p, rest) => lenN l = sz_program p + lenN rest
      | None => True
      end.
-Proof. exact de_total_bounded. Qed.
+Proof. exact de_total_bounded_size. Qed.
 
 (* the one allocation of decompress is at most 31 slots per input felt *)
 Theorem C14_decompress_alloc_bounded : forall pv size bound,
